@@ -156,9 +156,6 @@ HARNESS(h_quoted)
     std::vector<std::string> v;
     for (unsigned p = 0; p < NPARTS; ++p) {
         plen[p] = nondet_below(M + 1);
-#ifdef KF_QUOTED_EMPTY
-        ASSUME(plen[p] > 0);
-#endif
         for (unsigned i = 0; i < M; ++i) part[p][i] = sym_small(A, 7);
         v.push_back(std::string(part[p], plen[p]));
     }
